@@ -61,12 +61,12 @@ def make_custom_loader(plumpy):
 class PersisterHandle:
     """A checkpoint that lives in one of plumpy's bundled persisters (written by save_checkpoint, read by load_checkpoint)."""
 
-    def __init__(self, persister, pid, directory=None):
-        self.persister, self.pid, self.directory = persister, pid, directory
+    def __init__(self, persister, pid, directory=None, tag=None):
+        self.persister, self.pid, self.directory, self.tag = persister, pid, directory, tag
 
     def fetch(self):
         try:
-            return self.persister.load_checkpoint(self.pid)
+            return self.persister.load_checkpoint(self.pid, self.tag)
         finally:
             if self.directory is not None:
                 shutil.rmtree(self.directory, ignore_errors=True)
@@ -75,21 +75,21 @@ class PersisterHandle:
 PERSISTER_MEDIA = ('persister:memory', 'persister:pickle')
 
 
-def save(proc, medium, loader=None):
+def save(proc, medium, loader=None, tag=None):
     plumpy = seams.install()
     if medium == 'persister:memory':
         persister = plumpy.InMemoryPersister(loader=loader)
-        persister.save_checkpoint(proc)
-        return PersisterHandle(persister, proc.pid)
+        persister.save_checkpoint(proc, tag)
+        return PersisterHandle(persister, proc.pid, tag=tag)
     if medium == 'persister:pickle':
         directory = tempfile.mkdtemp(prefix='simkit-restart-')
         try:
             persister = plumpy.PicklePersister(directory)
-            persister.save_checkpoint(proc)
+            persister.save_checkpoint(proc, tag)
         except BaseException:
             shutil.rmtree(directory, ignore_errors=True)
             raise
-        return PersisterHandle(persister, proc.pid, directory)
+        return PersisterHandle(persister, proc.pid, directory, tag=tag)
     context = plumpy.LoadSaveContext(loader=loader) if loader is not None else None
     bundle = plumpy.Bundle(proc, context)
     if medium == 'bundle':
@@ -115,7 +115,7 @@ class RestartRun:
     """
 
     def __init__(self, program, crashes=None, media=None, loader_mode='default', build=None, max_rounds=200, pauses=None,
-                 crash_paused=None, pause_in_step=None, crash_on_paused=None, crash_on_played=None, lag=None):
+                 crash_paused=None, pause_in_step=None, crash_on_paused=None, crash_on_played=None, lag=None, tags=None):
         self.plumpy = seams.install()
         self.program = program
         self.crashes = {int(k): v for k, v in (crashes or {}).items()}
@@ -152,6 +152,9 @@ class RestartRun:
         # abandoned (without another checkpoint): that progress is lost, the checkpoint must not have noticed it
         self.lag = {int(k): int(v) for k, v in (lag or {}).items()}
         self.lagging = None
+        # tags under which checkpoints go into a persister (cycled); while an instance runs on after a TAGGED checkpoint it
+        # keeps writing the untagged "latest" checkpoint at every boundary, as an application with named snapshots does
+        self.tags = list(tags or [None])
         self.played_ordinal = 0
         self.step_ordinal = 0
         self.paused_ordinal = 0
@@ -172,6 +175,15 @@ class RestartRun:
             return
         self.boundary += 1
         if self.lagging is not None:
+            handle = self.lagging['bundle']
+            if isinstance(handle, PersisterHandle) and handle.tag is not None:
+                try:
+                    handle.persister.save_checkpoint(proc)
+                    self.world.rec('latest_saved', self.boundary)
+                except SimError:
+                    raise
+                except Exception as exc:  # noqa: BLE001
+                    self.world.rec('unsavable', self.boundary, type(exc).__name__)
             self.lagging['remaining'] -= 1
             if self.lagging['remaining'] <= 0:
                 self._abandon_lagging()
@@ -186,7 +198,7 @@ class RestartRun:
             return
         self.crashes[self.boundary] = remaining - 1
         try:
-            self.pending_bundle = save(proc, self._medium(), self._loader())
+            self.pending_bundle = save(proc, self._medium(), self._loader(), self.tags[self.restores % len(self.tags)])
         except SimError:
             raise
         except Exception as exc:  # noqa: BLE001 - "cannot be saved" point: skip the crash, count it
